@@ -1,17 +1,17 @@
 SPECIFICATION Spec
 CONSTANTS
-  AckMode = "shaped"
+  AckMode = "any"
   ThrMode = "fixed"
   EmptyMode = "fixed"
-  CfgSet <- CoreCfgs
-  SameCfg = FALSE
+  CfgSet <- CoreCfgsQ
+  SameCfg = TRUE
   Openers = {"A"}
   MaxOpens = 1
   Ids = {1}
   Hosts = {"h0"}
   MaxWrites = 3
-  Lens = {1, 2}
-  ReadMax = {1, 4}
+  Lens = {1}
+  ReadMax = {4}
   Closers = {}
   MuxDroppers = {}
   DgSenders = {}
